@@ -134,6 +134,11 @@ func stateInlineAnnotationTextPrefix2(s *Scanner, c byte) state {
 	if bytes.IsSpace(c) {
 		return scanContinue
 	}
+	if c == '#' && !s.isInsideMultiLineAnnotation() && s.isBlockCommentStart() {
+		// A user comment block in front of the note.
+		s.switchToComment()
+		return scanContinue
+	}
 	s.found(lexeme.InlineAnnotationTextBegin)
 	s.step = stateInlineAnnotationText
 	return s.step(s, c)
